@@ -42,7 +42,7 @@ _SEQ = ("sequences are recipes drawn by rapid from 14 structural families (expli
         "sparse, markov, single transition, uniform+long run, run-list, forced-excursion walk, tone, balanced); lengths from a mixture "
         "{minimum..minimum+3, regime boundaries +-2, <=5000, <=1e5, a few up to 1e6}. ")
 RULES["C01"] = (_SEQ + "tests: monobit (bits/bytes), block frequency (automatic m; explicit m small / near n / n / n/2 / arbitrary; bytes), poker m in {2,4,8} "
-                "(bits / byte fast paths), overlapping m in {2,3,5,7}, approximate entropy m in {2,5,7}; plus a deterministic sweep over the automatic "
+                "(bits / byte fast paths), overlapping m in {2,3,5,7} (bits/bytes), approximate entropy m in {2,5,7} (bits/bytes); one pattern-test case in eight is exactly equidistributed (whole periods of a de Bruijn cycle of order > m: the true statistic is 0); plus a deterministic sweep over the automatic "
                 "block-length boundaries (999,1000,...,10^6+1; thorough 10^8-1,10^8). oracle: independent transcription of GM/T 0005-2021 + big.Float igamc, "
                 "|dP|,|dQ| <= 1e-8. non-trivial: reference P strictly inside (1e-12, 1-1e-12). distinct: hash of the case JSON.")
 PROPS["C01"] = {
@@ -65,7 +65,7 @@ PROPS["C02"] = {
 }
 
 RULES["C03"] = (_SEQ + "tests: binary derivative k in {3,7,15} (plus period-2^j tiles whose derivative collapses), autocorrelation d in {1,2,8,16,32} (plus tiles of period d / 2d), "
-                "cumulative sums forward/backward (plus walks forced to a maximum excursion Z log-uniform in [1,n], Z in {1,2,3,5,10,n/40,n/4,n/3,n/2,n-1,n} in the sweep, and walks of 4*10^6 and 1.3*10^7 bits confined to |S| <= 1,2,3). "
+                "cumulative sums forward/backward (plus walks forced to a maximum excursion Z log-uniform in [1,n], Z in {1,2,3,5,10,n/40,n/4,n/3,n/2,n-1,n} in the sweep, and walks of 4*10^6 and 1.3*10^7 bits confined to |S| <= 1,2,3). One case in four goes through the byte entry point (XxxTestBytes on the packed sequence, n a multiple of 8), and the sweep calls the byte entry points on samples of decreasing length (10^6, 20000, 1000, 104 bits) in one process. "
                 "oracle: naive references (fresh slice per derivative pass, explicit pair counting, walk maximum + the standard's normal-CDF series); |dP|,|dQ| <= 1e-8. "
                 "non-trivial: reference P inside (1e-12,1-1e-12). distinct: hash of the case JSON.")
 PROPS["C03"] = {
@@ -80,7 +80,7 @@ RULES["C04"] = ("linear complexity: (a) every one of the 2^m blocks for m = 1..1
                 "+ a trailing partial block; rank: 1..40 row-major 32x32 matrices each built as a product of random 32xr and rx32 matrices (r in {32,31,28..30,0..32}) + trailing bits; "
                 "Maurer: n from 7*1281 to 60000 (some to 10^6 thorough), uniform/biased/constant/periodic/markov/sparse, optionally the 1280 initialisation blocks rewritten from a restricted 7-bit alphabet. "
                 "Half of the byte-aligned cases also go through the registry runner. oracle: bitset GF(2) elimination, textbook Berlekamp-Massey with growing slices, map-based Maurer; panic = violation; |dP|,|dQ| <= 1e-8. "
-                "non-trivial: a block whose complexity L has 2L-m outside [-2,3] (atypical class); a matrix of rank <= 30; a 7-bit pattern absent from the initialisation segment or reference P inside (1e-12,1-1e-12). distinct: hash of the case JSON.")
+                "byte-aligned inputs additionally go through LinearComplexityTestBytes / MatrixRankTestBytes / MaurerUniversalTestBytes and the registry runners. non-trivial: a block whose complexity L has 2L-m outside [-2,3] (atypical class); a matrix of rank <= 30; a 7-bit pattern absent from the initialisation segment or reference P inside (1e-12,1-1e-12). distinct: hash of the case JSON.")
 PROPS["C04"] = {
     "level": "exploration",
     "quick": shards(6, "TestC04", 1200, floor=300) + [S("TestC04", 1200, mode="rank", floor=300), S("TestC04", 800, mode="maurer", floor=200)]
